@@ -1,12 +1,12 @@
 SPECIFICATION Spec
 CONSTANTS
-  K = 3
+  K = 2
   SrcEnds = {"eof", "err"}
   IniEnds = {"closesend", "cancel"}
   Faults = {"unkMsg", "unkAck", "tgtSendFail", "srcSendFail", "openFail"}
   Lifetime = TRUE
   Post = TRUE
-  Syncs = {TRUE, FALSE}
+  Syncs = {TRUE}
   SrcKinds = {"coop", "silent"}
   RaceHandoff = TRUE
   LatchMsg = TRUE
@@ -14,7 +14,7 @@ CONSTANTS
   CloseSendOnExit = TRUE
   CancelOnReturn = TRUE
   FmsgWakesOnLatch = TRUE
-  NetCap = 0
+  NetCap = 1
   HandoffTimeout = FALSE
 INVARIANTS InOrder NoUnknownForwarded NoStuck EveryScriptEnds
 CHECK_DEADLOCK FALSE
